@@ -259,3 +259,37 @@ class ServerRig:
         if rm is None:
             return {"txbs": None, "wire": bytes(f.wire), "rxbs": None, "cutoff": None, "hs": st}
         return {"txbs": bytes(rm.txbs), "wire": bytes(f.wire), "rxbs": bytes(rm.rxbs), "cutoff": bool(rm.cutoff), "hs": st}
+
+
+class ServerEndpoint:
+    """the server side of one connection as a real Server / ServerTls builds and services it (accepted from a scripted
+    listen socket, given the server's wire log): same interface as Endpoint, every step is one Server.service() pass"""
+
+    def __init__(self, kind):
+        self.kind = kind
+        self.tls = kind == "servertls"
+        self.rig = ServerRig(self.tls, (1,), handshakes=False, wirelog=True)
+        if self.rig.err:
+            raise core.MachineryError("server rig: %s" % self.rig.err)
+
+    def apply(self, e):
+        op, a = e["op"], e["a"]
+        idle = {"hs": ["ok"], "m": 0, "sz": 1, "tail": ["block"], "out": ["block"]}
+        if op in ("tx", "peersend"):
+            return self.rig.apply(dict(e, c=1))
+        if op == "send":
+            # a pass with a would-block send when there is nothing to send: the model's SendEff is the identity then
+            return self.rig.apply({"op": "pass", "a": [dict(idle, out=a)]})
+        if op == "recv":
+            return self.rig.apply({"op": "pass", "a": [dict(idle, m=a[0], sz=a[1], tail=a[2])]})
+        if op == "again":
+            return self.rig.apply({"op": "pass", "a": [idle]})
+        return None
+
+    def obs(self):
+        o = self.rig.obs(1)
+        wl = self.rig.wl
+        return dict(o, log=wl.readTx() or b"", rlog=wl.readRx() or b"")
+
+    def close(self):
+        self.rig.close()
